@@ -97,6 +97,10 @@ class ContainerBase:
     def mk_copy(self, copy_node: bool = False) -> ContainerBase:
         """Make a copy of self."""
         copied = copy.copy(self)
+        for _, cprop in self.sorted_container_properties():
+            value = cprop.get_actual_value(self)
+            if value is not None:
+                setattr(copied, cprop._local_var_name, copy.deepcopy(value))  # noqa: SLF001
         if copy_node and self.node is not None:
             copied.node = xml_utils.copy_element(self.node)
         return copied
